@@ -94,6 +94,8 @@ enum Step {
     /// a file that is not open disappears from the disk; the server learns nothing of it until the next
     /// notification, here a full-text didChange of the open document `.1` that re-sends its current text
     DeleteOnDisk(usize, usize),
+    /// the second workspace folder (the parent directory, whose program is `c.oal`) is removed from the running server
+    RemoveOuterFolder,
     Checkpoint,
 }
 
@@ -154,6 +156,28 @@ fn gen_history(rng: &mut Rng, max_steps: usize) -> (Vec<usize>, Vec<Step>) {
                 steps.push(Step::Close(1));
                 is_open = false;
             }
+        }
+        steps.push(Step::Checkpoint);
+        return (disk, steps);
+    }
+    if family == 2 {
+        // two workspace folders: `ws` and the directory next to it that holds `c.oal` (a program of its own, and a module
+        // of the program of `ws`). `c.oal` is open with unsaved text when the outer folder is taken away; the document
+        // stays open and stays a module of the program of `ws`
+        let outer = variants(3);
+        let disk = vec![8, 0, 0, rng.below(outer.len())];
+        let mut steps = vec![Step::Open(3, (*rng.pick(&outer)).to_owned())];
+        if rng.chance(1, 2) {
+            steps.push(Step::Change(3, vec![(Some((0, 0)), (*rng.pick(&SNIPPETS)).to_owned())]));
+        }
+        if rng.chance(1, 2) {
+            steps.push(Step::Checkpoint);
+        }
+        steps.push(Step::RemoveOuterFolder);
+        steps.push(Step::Checkpoint);
+        steps.push(Step::Change(3, vec![(Some((0, 0)), (*rng.pick(&SNIPPETS)).to_owned())]));
+        if rng.chance(1, 2) {
+            steps.push(Step::Change(3, vec![(None, (*rng.pick(&outer)).to_owned())]));
         }
         steps.push(Step::Checkpoint);
         return (disk, steps);
@@ -398,7 +422,14 @@ fn run_history(disk: &[usize], steps: &[Step], located_only: Option<&'static str
             json!({"signature": format!("{prop} server-{kind} on {what}"), "step": step, "error": crate::util::clip(&format!("{e:?}"), 600)}),
         )]
     };
-    let mut lsp = match Lsp::start(&ws, None) {
+    // histories that remove the outer folder start with two folders: `ws` and its parent directory
+    let mut folders: Vec<std::path::PathBuf> = vec![ws.clone()];
+    if steps.iter().any(|s| matches!(s, Step::RemoveOuterFolder)) {
+        let _ = std::fs::write(dir.path.join("oal.toml"), "[api]\nmain = \"c.oal\"\ntarget = \"out-outer.yaml\"\n");
+        folders.push(dir.path.clone());
+        st.inc("histories_with_two_workspace_folders");
+    }
+    let mut lsp = match Lsp::start_folders(&ws, &folders, None) {
         Ok(l) => l,
         Err(e) => return fail(e, 0, "start"),
     };
@@ -466,6 +497,14 @@ fn run_history(disk: &[usize], steps: &[Step], located_only: Option<&'static str
                 let p = text.position_of(o);
                 lsp.position_request(m, &uris[*f], p[0], p[1]).map(|_| ())
             }
+            Step::RemoveOuterFolder => {
+                st.inc("step:remove-folder");
+                folders.truncate(1);
+                lsp.notify(
+                    "workspace/didChangeWorkspaceFolders",
+                    json!({"event": {"added": [], "removed": [{"uri": file_uri(&dir.path), "name": "outer"}]}}),
+                )
+            }
             Step::DeleteOnDisk(f, g) => {
                 st.inc("step:delete-on-disk");
                 let _ = std::fs::remove_file(path_of(&ws, FILES[*f]));
@@ -521,7 +560,7 @@ fn run_history(disk: &[usize], steps: &[Step], located_only: Option<&'static str
                     continue;
                 }
                 // fresh server handed the client's final texts of the still-open documents
-                let mut fresh = match Lsp::start(&ws, None) {
+                let mut fresh = match Lsp::start_folders(&ws, &folders, None) {
                     Ok(l) => l,
                     Err(e) => return fail(e, i, "fresh start"),
                 };
